@@ -41,6 +41,9 @@ def run(ctx):
     ctx.each(flowalg.process_prologue, ctx, repo, "R08f")
     ctx.each(flowalg.stateless_step_rule, ctx, repo, "R08g")
     ctx.each(r08e, ctx, repo)
+    from . import shapes
+
+    ctx.each(shapes.copy_hook_rule, ctx, repo, "R08h")
 
 
 COPY_CALLS = {"sc.dcp", "copy.deepcopy", "dcp", "deepcopy"}
